@@ -35,15 +35,15 @@ static inline int drv_hexval(int c)
 static inline int drv_parse_data(const char *s, uint8_t **out, size_t *len, int *isnull)
 {
 	*isnull = 0;
-	if (!strcmp(s, "-")) { *out = malloc(1); *len = 0; return 0; }
+	if (!strcmp(s, "-")) { *out = (uint8_t *) malloc(1); *len = 0; return 0; }
 	if (!strncmp(s, "zero:", 5)) {
 		char *e; unsigned long n = strtoul(s + 5, &e, 10);
 		if (*e || e == s + 5) return -1;
-		*out = calloc(n ? n : 1, 1); *len = n; *isnull = 1; return 0;
+		*out = (uint8_t *) calloc(n ? n : 1, 1); *len = n; *isnull = 1; return 0;
 	}
 	size_t n = strlen(s);
 	if (n & 1) return -1;
-	uint8_t *b = malloc(n / 2 ? n / 2 : 1);
+	uint8_t *b = (uint8_t *) malloc(n / 2 ? n / 2 : 1);
 	for (size_t i = 0; i < n / 2; i++) {
 		int a = drv_hexval(s[2*i]), c = drv_hexval(s[2*i+1]);
 		if (a < 0 || c < 0) { free(b); return -1; }
